@@ -20,9 +20,9 @@ ASSUMPTIONS = ["which of pre-/post-liquidation value is recorded at t_b is not f
 
 def plan(tier):
     q = tier == "quick"
-    return [dict(unit="lev", n=500 if q else 15000, builds=["py", "so"], case_timeout=180),
-            dict(unit="fi", n=60 if q else 1500, builds=["py"], case_timeout=60),
-            dict(unit="carry", n=300 if q else 8000, builds=["py", "so"], case_timeout=60)]
+    return [dict(unit="lev", n=500 if q else 6000, builds=["py", "so"], case_timeout=180),
+            dict(unit="fi", n=60 if q else 600, builds=["py"], case_timeout=60),
+            dict(unit="carry", n=300 if q else 3200, builds=["py", "so"], case_timeout=60)]
 
 
 def floors(tier):
